@@ -1,5 +1,8 @@
 import Verif.Properties.C01
 import Verif.Properties.C02
+import Verif.Properties.C05
+#print axioms C05.refFree_isNF
+#print axioms C05.refFree_fixed
 #print axioms C01.cert_sound
 #print axioms C01.validated_start_pairs
 #print axioms C02.local_sound
